@@ -239,7 +239,7 @@ def run(ctx: core.Check):
     GX = GridX(Gf)
     rng = ctx.rng
     boxes = []
-    nb = ctx.scale(56, 1600)
+    nb = ctx.scale(56, 1000)
     for b in range(nb):
         kind = KINDS[b % len(KINDS)]
         left, right = gen_box(rng, kind)
